@@ -10,6 +10,7 @@ import numpy as np
 from hypothesis import strategies as st
 
 from .. import chkgen, plotgen, pools
+from . import c11  # noqa: F401  (registers the "physical" payload used by the chef_ct entry)
 from ..harness import _SETUP, qcall, tree_hash
 
 ID = "C12"
